@@ -227,6 +227,14 @@ func (ms *ModSet) inject(rng *rand.Rand) {
 			if cd.Name == "" {
 				continue
 			}
+			if rng.Intn(2) == 0 {
+				// the second declaration says something else (were it silently accepted, which one wins would show)
+				cd.Expr = []string{"1 == 2", "x != y", "!(x)"}[rng.Intn(3)]
+			}
+			if rng.Intn(3) == 0 {
+				// ... in a file of the same module as the first declaration
+				ms.Files[f].Module = ms.Files[cf].Module
+			}
 			ms.Files[f].Conds = append(ms.Files[f].Conds, cd)
 			ms.Conflicts = append(ms.Conflicts, Conflict{"dup-cond", -1, f, fmt.Sprintf("cond:%s#0", cd.Name), cd.Name})
 			return
